@@ -1,0 +1,17 @@
+//go:build !verif
+
+// Package verifhook provides named instrumentation points for the external
+// verification harness. Without the "verif" build tag every hook is a no-op.
+package verifhook
+
+// Handler is called at every instrumentation point.
+type Handler func(point string, args ...any)
+
+// Set is a no-op without the verif build tag.
+func Set(Handler) {}
+
+// Enabled reports whether hooks are compiled in.
+const Enabled = false
+
+// At is a no-op without the verif build tag.
+func At(string, ...any) {}
